@@ -270,8 +270,8 @@ def _classify(res, present, nt, tie, inp, nsp, any_nodes):
 
 
 PARTS = [
-    Part("seg", seg_inputs(), probe_seg, quick=1200, thorough=24000),
-    Part("points", point_inputs(), probe_points, quick=1200, thorough=24000),
+    Part("seg", seg_inputs(), probe_seg, quick=5000, thorough=60000),
+    Part("points", point_inputs(), probe_points, quick=5000, thorough=60000),
 ]
 
 
